@@ -25,6 +25,14 @@ CHECKS = {
          "Each generated session (call/cc productions on) is run uninterrupted in one VM and with prepare_eval + run_count(b_i) in another, for constant budgets 1..64 and random log-uniform budget sequences in 1..10^4; per-form value/failure/output and the final value of every session global must agree, every slice must stay within its budget, and the number of resumes is bounded by the uninterrupted instruction count. Constant budgets 1..64 are swept exhaustively over 8 fixed programs.",
          "The uninterrupted run is the reference (its own correctness is C01/C05's business); programs are first screened by the reference interpreter so that diverging programs are excluded.",
          "DESIGN.md section 4, C13"),
+ "C10": ("proptest-driven recursive datum generator (choice sequences, shrinking) with a round-trip oracle: write -> read -> write, and quote through the VM heap both as a cell and as text; strict structural comparison in the harness",
+         "Every generated datum (booleans; finite doubles by bit pattern, boundary list, decimal strings and around the printer's 1e10 switch; integers across +-2^63 as fixnum and bignum cells; reduced rationals within i32; characters and strings of every Unicode class; symbols from the lexer's identifier grammar that the reader itself produces; lists, improper lists, vectors, quote forms and degenerate quote spellings to depth 6) is written, read back, rewritten and evaluated under quote. Exploration: the round trip holds on everything generated, nothing beyond.",
+         "The symbol domain is defined by the reader itself (parse_text(s) = Symbol(s), nothing remaining), as the statement says; exact integers of any representation count as one value; comparison is by the harness' own strict equality, not the SUT's PartialEq.",
+         "DESIGN.md section 4, C10"),
+ "C11": ("proptest-driven text generators (random Unicode, token soup, character/token/subtree mutations of corpus programs and datum texts, well-formed datum sequences by construction) against span invariants, a reference gap scanner, a reference token-class parser for datum extents, and exhaustive token-boundary prefix cuts",
+         "Every generated text is scanned and parsed datum by datum: no panic, spans non-empty/in bounds/on char boundaries/ordered, gaps only whitespace and comments, remaining text exactly at the first token after the datum (reference extent), loop visits each datum once. Every token-boundary prefix of every generated well-formed datum (with and without a whitespace/comment trailer) must be Incomplete and the complete datum must not. Exploration: holds on everything generated (one recorded known finding), nothing beyond.",
+         "Which texts are errors is not asserted. Datum extents come from the harness' parser over the scanner's token types; for well-formed texts cut points and expected remaining offsets are the generator's own. A hang would be attributed by an in-worker watchdog and counts as a violation.",
+         "DESIGN.md section 4, C11"),
  "C20": ("exhaustive enumeration over a lexeme alphabet + proptest-driven Unicode token soup against a reference bracket matcher",
          "Every string of <=5 (quick) / <=7 (thorough) lexemes over the 11-lexeme alphabet with every cursor position is checked against the harness' own tokenizer and partner search (finite space enumerated completely), plus random Unicode token soup with random cursors. Exploration: holds on everything enumerated/generated, nothing beyond.",
          "Trusts the harness' reference tokenizer/partner search; random texts use the SUT scanner for token spans (checked by C11).",
